@@ -7,6 +7,7 @@ import (
 	"github.com/plgd-dev/go-coap/v3/message"
 	"github.com/plgd-dev/go-coap/v3/message/codes"
 	"github.com/plgd-dev/go-coap/v3/message/pool"
+	"github.com/plgd-dev/go-coap/v3/net/blockwise"
 	"github.com/plgd-dev/go-coap/v3/net/responsewriter"
 	tcpclient "github.com/plgd-dev/go-coap/v3/tcp/client"
 	udpclient "github.com/plgd-dev/go-coap/v3/udp/client"
@@ -42,7 +43,14 @@ func wireScenario(transport string) *mcx.Scenario {
 				con := vrt.Choose(2, nil) == 0
 				method := wireMethods[vrt.Choose(len(wireMethods), nil)]
 				value, code := wireValues[vi], wireCodes[ci]
-				desc = fmt.Sprintf("%s method=0.%02d value=%d code=%d.%02d con=%v", transport, method, value, code>>5, code&31, con)
+				// request shape: plain; an option of illegal length (dropped by the decoder) in front of No-Response; the
+				// only / last block of a block-wise upload (Block1 NUM=0 M=0) on a connection with block-wise transfer enabled
+				shape := []string{"plain", "illegal-option-in-front", "last-block1"}[vrt.Choose(3, nil)]
+				if shape == "last-block1" && (method == codes.GET || method == codes.DELETE) {
+					desc = "last-block1 needs a method with a body"
+					return
+				}
+				desc = fmt.Sprintf("%s method=0.%02d value=%d code=%d.%02d con=%v shape=%s", transport, method, value, code>>5, code&31, con, shape)
 				want := specSuppressed(uint8(code), value)
 				refused := false
 				handle := func(set func(codes.Code) error) {
@@ -52,16 +60,27 @@ func wireScenario(transport string) *mcx.Scenario {
 				}
 				bo := make([]byte, 4)
 				opts, _, _ := message.Options{{ID: message.URIPath, Value: []byte("r")}}.SetUint32(bo, message.NoResponse, value)
+				var payload []byte
+				switch shape {
+				case "illegal-option-in-front":
+					opts = append(message.Options{opts[0], {ID: message.Accept, Value: []byte{1, 2, 3}}}, opts[1:]...)
+				case "last-block1":
+					b1, _ := blockwise.EncodeBlockOption(blockwise.SZX16, 0, false)
+					bb := make([]byte, 4)
+					n, _ := message.EncodeUint32(bb, b1)
+					opts = append(message.Options{opts[0], {ID: message.Block1, Value: bb[:n]}}, opts[1:]...)
+					payload = []byte("abc")
+				}
 				var outs []message.Message
 				if transport == "udp" {
-					w := udpw.New(udpw.Opts{QueueSize: 2, LimitTotal: 2, LimitEndpoint: 2, Handler: func(rw *responsewriter.ResponseWriter[*udpclient.Conn], r *pool.Message) {
+					w := udpw.New(udpw.Opts{QueueSize: 2, LimitTotal: 2, LimitEndpoint: 2, BlockWise: shape == "last-block1", SZX: blockwise.SZX16, Handler: func(rw *responsewriter.ResponseWriter[*udpclient.Conn], r *pool.Message) {
 						handle(func(c codes.Code) error { return rw.SetResponse(c, message.TextPlain, nil) })
 					}})
 					typ := message.NonConfirmable
 					if con {
 						typ = message.Confirmable
 					}
-					_ = w.Inject(message.Message{Type: typ, Code: method, MessageID: 4711, Token: message.Token{0x20}, Options: opts})
+					_ = w.Inject(message.Message{Type: typ, Code: method, MessageID: 4711, Token: message.Token{0x20}, Options: opts, Payload: payload})
 					vrt.Quiesce("env: handled")
 					for _, o := range w.NewOuts() {
 						outs = append(outs, o.M)
@@ -78,10 +97,15 @@ func wireScenario(transport string) *mcx.Scenario {
 						fs = append(fs, mcx.Finding{Sig: "wire/unsuppressed-response-dropped/udp", What: fmt.Sprintf("%s: expected the response, conn wrote %v", desc, describe(outs))})
 					}
 				} else {
-					w := tcpw.New(tcpw.Opts{QueueSize: 2, LimitTotal: 2, LimitEndpoint: 2, DisableCSM: true, Handler: func(rw *responsewriter.ResponseWriter[*tcpclient.Conn], r *pool.Message) {
+					w := tcpw.New(tcpw.Opts{QueueSize: 2, LimitTotal: 2, LimitEndpoint: 2, DisableCSM: true, BlockWise: shape == "last-block1", SZX: blockwise.SZX16, Handler: func(rw *responsewriter.ResponseWriter[*tcpclient.Conn], r *pool.Message) {
 						handle(func(c codes.Code) error { return rw.SetResponse(c, message.TextPlain, nil) })
 					}})
-					w.Inject(message.Message{Code: method, Token: message.Token{0x20}, Options: opts})
+					if shape == "last-block1" {
+						w.Inject(message.Message{Code: codes.CSM, Options: message.Options{{ID: message.TCPBlockWiseTransfer}}})
+						vrt.Quiesce("env: CSM consumed")
+						w.NewOuts()
+					}
+					w.Inject(message.Message{Code: method, Token: message.Token{0x20}, Options: opts, Payload: payload})
 					vrt.Quiesce("env: handled")
 					outs = w.NewOuts()
 					if want && len(outs) != 0 {
@@ -113,7 +137,7 @@ func runWire(r *ev.Run) {
 	sum := mcx.Explore(r, scs, mcx.Config{Wall: 3 * time.Minute})
 	r.Set("wire_executions", sum.Execs)
 	r.Set("wire_distinct_cases", int64(len(sum.Outcomes)))
-	r.Set("wire_rule", "every combination of 12 No-Response values x 11 response codes (one per class plus codes absent from the library's lists: 2.00, 2.31, 4.08, 4.29, 5.06, 5.31) x CON|NON x 7 request methods (0.01-0.07) injected into a real udp/client.Conn and tcp/client.Conn whose handler calls SetResponse; oracle on the bytes the connection wrote")
+	r.Set("wire_rule", "every combination of 12 No-Response values x 11 response codes (one per class plus codes absent from the library's lists: 2.00, 2.31, 4.08, 4.29, 5.06, 5.31) x CON|NON x 7 request methods (0.01-0.07) x 3 request shapes (plain, an illegal-length option in front of No-Response, the only block of a block-wise upload on a block-wise connection) injected into a real udp/client.Conn and tcp/client.Conn whose handler calls SetResponse; oracle on the bytes the connection wrote")
 	r.Add("evaluations", sum.Execs)
 	r.Sample(map[string]any{"part": "wire", "case": "udp value=26 code=4.08 con=true", "expected": "bare ACK only"})
 }
